@@ -171,8 +171,34 @@ def _ang(kind, x):
     return S.angle_obj(kind, x)
 
 
+_ARR_KIND = ["c"]          # representation of the arrays the "caller" passes in the call being built (set by build_args)
+
+
 def _arr(v):
-    return np.array(v, dtype=float)
+    """A caller's array: freshly allocated and contiguous, a view into a larger array the caller holds, or Fortran-ordered."""
+    x = np.array(v, dtype=float)
+    k = _ARR_KIND[0]
+    if k == "view" and x.ndim == 2:
+        big = np.full((x.shape[0] + 2, x.shape[1] + 3), 7.25)
+        big[1:-1, 2:-1] = x
+        return big[1:-1, 2:-1]
+    if k == "f" and x.ndim == 2:
+        return np.asfortranarray(x)
+    return x
+
+
+def _seq(v, kind):
+    """A caller's sequence of numbers: list (documented), tuple, float64 array, or a column of a 2-D field book."""
+    if kind == "tuple":
+        return tuple(v)
+    if kind == "array":
+        return np.array(v, dtype=float)
+    if kind == "column":
+        book = np.zeros((len(v), 3))
+        book[:, 0] = np.arange(len(v))
+        book[:, 1] = v
+        return book[:, 1]
+    return list(v)
 
 
 def _date(e):
@@ -195,6 +221,7 @@ def _angle_obj(cls, x):
 def build_args(call):
     """-> (callable, positional args list, names of the mutable args to watch)"""
     fn, a = call["fn"], call["a"]
+    _ARR_KIND[0] = a.get("arr", "c")
     cv, gd, stt, sv, tf, c = (repo.mod("geodepy." + m) for m in ("convert", "geodesy", "statistics", "survey", "transform", "constants"))
     ell = S.make_ellipsoid(a["ell"]) if "ell" in a else None
     if fn == "geo2grid":
@@ -278,7 +305,7 @@ def build_args(call):
     if fn == "radiations":
         return sv.radiations, [a["e1"], a["n1"], a["brg"], a["d"], a["rot"], a["k"]]
     if fn == "precise_inst_ht":
-        return sv.precise_inst_ht, [list(a["angles"]), a["spacing"], a["offset"]]
+        return sv.precise_inst_ht, [_seq(a["angles"], a.get("cont", "list")), a["spacing"], a["offset"]]
     if fn == "conform7":
         tr = TR.make_trans(a["trans"])
         if a.get("neg"):
@@ -452,7 +479,10 @@ def _family(entry):
             if len(picked) == len(keys) and len(keys) > 1:
                 picked = picked[:-1]
             for k in picked:
-                c["a"][k] = o["a"][k]
+                if k in o["a"]:
+                    c["a"][k] = o["a"][k]
+                else:
+                    c["a"].pop(k, None)         # (optional keys such as the array representation)
             out.append(c)
         return out
     return st.tuples(entry, st.lists(entry, min_size=1, max_size=2), st.lists(st.integers(1, 255), min_size=2, max_size=2)).map(mix)
@@ -536,7 +566,7 @@ def call_strategy(families=False):
         _fd("joins", e1=S.floats(0, 1e6), n1=S.floats(0, 1e7), e2=S.floats(0, 1e6), n2=S.floats(0, 1e7)),
         _fd("radiations", e1=S.floats(0, 1e6), n1=S.floats(0, 1e7), brg=S.floats(0, 360), d=S.floats(0, 1e5), rot=S.floats(-180, 180), k=S.floats(0.999, 1.001)),
         _fd("precise_inst_ht", angles=st.lists(S.floats(80.0, 100.0), min_size=3, max_size=8, unique=True), spacing=st.sampled_from([0.1, 0.2, 0.5]),
-            offset=S.floats(0.0, 2.0)),
+            offset=S.floats(0.0, 2.0), cont=st.sampled_from(["list", "list", "tuple", "array", "column"])),
         _fd("conform7", trans=shipped7, neg=st.booleans(), X=_X, vcv=st.none()),
         _fd("conform7", trans=shipped_sd, neg=st.booleans(), X=_X, vcv=_vcv),
         _fd("conform14", trans=dated, neg=st.booleans(), X=_X, epoch=_epoch, vcv=st.none()),
@@ -598,6 +628,15 @@ def call_strategy(families=False):
         _fd("mga", dir=st.sampled_from(["94to2020", "2020to94"]), zone=st.integers(46, 59), east=S.floats(150000.0, 850000.0),
             north=S.floats(3500000.0, 9000000.0), h=st.one_of(st.none(), S.floats(-100, 3000)), vcv=TR.psd3()),
     ]
+    def with_rep(entry):
+        # calls that carry covariance arrays: the array may be a view into a larger array of the caller's, or Fortran-ordered
+        def inject(t):
+            call, kind = t
+            if any(call["a"].get(k) is not None for k in ("vcv", "v1")) and kind != "c":
+                return {"fn": call["fn"], "a": dict(call["a"], arr=kind)}
+            return call
+        return st.tuples(entry, st.sampled_from(["c", "c", "c", "view", "f"])).map(inject)
+    pool = [with_rep(e) for e in pool]
     if families:
         return st.one_of(*[_family(e) for e in pool])
     return st.one_of(*pool)
